@@ -34,7 +34,7 @@ TECHNIQUE = "audit-hook crash/torn-write/EIO enumeration over every file operati
 RULE = (
     "scenarios = previous tree {present, absent} x response {good bz2/gz/xz, truncated, bit-flipped, not a tarball, "
     "HTTP 404, HTTP 304, unchanged ETag}; every mutating event of the fault-free run (download temp file, staging "
-    "directories, each member of the unpack, the two renames, .etag/.modified) is a crash point, every open-for-write a "
+    "directories, each member of the unpack, the two renames, .etag/.modified) is a crash point (plus a crash right after every rename/symlink), every open-for-write a "
     "torn write, thorough adds single EIOs everywhere and EIO pairs for the two good-bz2 scenarios. One evaluation = "
     "one faulted sync from a fresh copy of the pre-state + tree snapshot + follow-up sync + tree snapshot. A class is "
     "(response class, fault kind, kind of audited call at a crash, tree state after the fault, outcome of the follow-up sync)."
@@ -604,7 +604,7 @@ def _plans(fx, tier, mode):
 
     ev = fx.events
     if mode == "single":
-        plans = faults.plans_for(ev, crash=True, torn=True, errors=(tier == "thorough"), errnos=(errno.EIO,))
+        plans = faults.plans_for(ev, crash=True, torn=True, errors=(tier == "thorough"), errnos=(errno.EIO,), after=True)
         plans.append(("real-tar",))
         return plans
     n = len(ev)
@@ -714,12 +714,12 @@ def _stale_staging(case):
 
 def _rename_window(case):
     """Between rename(repo -> .repo.old) and rename(.repo.update -> repo) the repository path does not exist."""
-    return (
-        case.get("prev") == "present"
-        and case.get("state") == "absent"
-        and case.get("plan", [""])[0] == "crash"
-        and case.get("at", "").startswith("os.rename /repos/.r.update")
-    )
+    if not (case.get("prev") == "present" and case.get("state") == "absent"):
+        return False
+    at, kind = case.get("at", ""), case.get("plan", [""])[0]
+    if kind == "crash_after":
+        return at.startswith("os.rename /repos/r")  # died right after the first rename
+    return kind == "crash" and at.startswith("os.rename /repos/.r.update")
 
 
 def _second_rename_fails(case):
